@@ -229,8 +229,11 @@ class CPreProcessor:
         search_directories = []
         if use_current_dir:
             # In the case of: #include "foo.h"
-            current_dir = os.path.dirname(self.files[-1].source_file.filename)
-            search_directories.append(current_dir)
+            current_file = self.files[-1].source_file.filename
+            if current_file:
+                # The including source has a name: look next to it first.
+                current_dir = os.path.dirname(current_file)
+                search_directories.append(current_dir)
         search_directories.extend(self.coptions.include_directories)
 
         # self.logger.debug((search_directories)
